@@ -405,3 +405,56 @@ def run_case(lines):
 
 def run(payload):
     return [run_case(c) for c in payload['cases']]
+
+
+# ---- real threads, real sleeps (thorough tier soak; no virtual time) ---------------------------
+def run_soak(payload):
+    """Each scenario: tasks on SystemClock / AppClock / a TempoClock scheduled from the main thread
+    and from a second real thread while the clock threads really sleep; returns the awake log
+    [(clock, task, logical seconds, physical seconds)] relative to the start, plus thread liveness."""
+    import threading
+    import time
+    import warnings
+    warnings.filterwarnings('ignore')
+    import sc3
+    sc3.init('rt', 'ERROR')
+    from sc3.base import clock as clk, main as m
+    main = m.main
+    out = []
+    for sc in payload['scenarios']:
+        tempo = clk.TempoClock(sc.get('tempo', 2.0))
+        clocks = {'s': clk.SystemClock, 'a': clk.AppClock, 't': tempo}
+        log = []
+        t_start = main.elapsed_time()
+
+        def mk(tid, k, deltas):
+            st = {'i': 0}
+
+            def f(self_, clock):
+                log.append((k, tid, clock.seconds - t_start, clock.beats if k == 't' else None,
+                            main.elapsed_time() - t_start))
+                i = st['i']
+                st['i'] += 1
+                if i < len(deltas):
+                    if deltas[i] == 'x':
+                        raise ValueError('soak')
+                    return deltas[i]
+                return None
+            f.__qualname__ = f'task{tid}'
+            return f
+
+        def second_thread(items):
+            for delay, k, d, tid, deltas in items:
+                time.sleep(delay)
+                clocks[k].sched(d, mk(tid, k, deltas))
+        th = threading.Thread(target=second_thread, args=(sc['late_items'],), daemon=True)
+        for k, d, tid, deltas in sc['items']:
+            clocks[k].sched(d, mk(tid, k, deltas))
+        th.start()
+        time.sleep(sc['horizon'])
+        th.join()
+        alive = {'s': clk.SystemClock._thread.is_alive(), 'a': clk.AppClock._thread.is_alive(),
+                 't': tempo.running()}
+        tempo.stop()
+        out.append({'log': log, 'alive': alive})
+    return out
